@@ -1,16 +1,25 @@
 //! C17: `start_file_aligned`, the extra-data calls and `validate_extra_data`, through the public API.
 //!
-//!   align.start pre=<n> name_len=<n> large=<0|1> a=<n>
+//!   align.start [off=<n>] pre=<n> name_len=<n> large=<0|1> a=<n>
 //!       → `ok ret=<returned pad> ds=<reader data_start> xlen=<local extra-length field> lx=<-|za:<n>|hex>
 //!             cx=<hex of extra_data()> rt=<0|1> raw=<0|1>`  |  `err <class>`  |  `panic`
 //!   align.validate large=<0|1> extra=<hex>
 //!       → `api=<ok|err class|panic> hook=<ok|err class|panic>`
-//!   align.extra large=<0|1> mode=shared|split|centralonly local=<hex> central=<hex>
+//!   align.extra [off=<n>] large=<0|1> mode=shared|split|centralonly local=<hex> central=<hex>
 //!       → `ok ds=<n> xlen=<n> lx=<hex> cx=<hex> rt=<0|1> raw=<0|1>` | `err <class> at=<local|central|finish>` | `panic`
+//!
+//! `off` (default 0): the sink is a sparse one, positioned at `off` before `ZipWriter::new` — the archive begins
+//! behind a hole of `off` bytes, so header offsets at and beyond 2^32 (where the central record gets a ZIP64
+//! record of its own) cost nothing.  The local header lies at `off + pre`.
+//!
+//! `cx` is everything `ZipFile::extra_data()` returns: the central record's whole extra field, i.e. the ZIP64
+//! record the writer generates (present iff a size or the header offset is ≥ 0xFFFFFFFF) followed by the central
+//! extra data the caller supplied.
 use super::{GenOut, OracleFailure, Stream};
 use crate::prng::Rng;
 use crate::util::*;
-use std::io::{Cursor, Read, Write};
+use super::z64::Sparse;
+use std::io::{Cursor, Read, Seek, SeekFrom, Write};
 use std::mem::ManuallyDrop;
 use std::panic::AssertUnwindSafe;
 use zip::write::FileOptions;
@@ -33,21 +42,71 @@ fn opts(large: bool) -> FileOptions {
     FileOptions::default().compression_method(CompressionMethod::Stored).large_file(large)
 }
 
-type W = ZipWriter<Cursor<Vec<u8>>>;
+/// In-memory sink, or (for `off` > 0) the sparse sink of the z64 stream positioned at `off`.
+pub enum Sink {
+    Mem(Cursor<Vec<u8>>),
+    Sparse(Sparse),
+}
+impl Write for Sink {
+    fn write(&mut self, b: &[u8]) -> std::io::Result<usize> {
+        match self { Sink::Mem(c) => c.write(b), Sink::Sparse(s) => s.write(b) }
+    }
+    fn flush(&mut self) -> std::io::Result<()> { Ok(()) }
+}
+impl Read for Sink {
+    fn read(&mut self, b: &mut [u8]) -> std::io::Result<usize> {
+        match self { Sink::Mem(c) => c.read(b), Sink::Sparse(s) => s.read(b) }
+    }
+}
+impl Seek for Sink {
+    fn seek(&mut self, p: SeekFrom) -> std::io::Result<u64> {
+        match self { Sink::Mem(c) => c.seek(p), Sink::Sparse(s) => s.seek(p) }
+    }
+}
+
+type W = ZipWriter<Sink>;
+
+/// The largest `off` / `pre` the stream runs (anything beyond is `bad-op` on both sides).
+const MAX_OFF: u64 = 1 << 40;
+const MAX_PRE: u64 = 1 << 20;
 
 /// A writer whose destructor never runs (a writer left in a failed state would otherwise run
 /// `finalize` again while unwinding or print to stderr).
-fn new_writer(pre: u64) -> Option<ManuallyDrop<W>> {
-    let mut zw = ManuallyDrop::new(ZipWriter::new(Cursor::new(Vec::new())));
+fn new_writer(off: u64, pre: u64) -> Option<ManuallyDrop<W>> {
+    if off > MAX_OFF || pre > MAX_PRE {
+        return None;
+    }
+    let sink = if off > 0 {
+        let mut s = Sparse::new();
+        s.seek(SeekFrom::Start(off)).ok()?;
+        Sink::Sparse(s)
+    } else {
+        Sink::Mem(Cursor::new(Vec::new()))
+    };
+    let mut zw = ManuallyDrop::new(ZipWriter::new(sink));
     if pre > 0 {
         let hdr = 30 + PRE_NAME.len() as u64;
         if pre < hdr {
             return None;
         }
         zw.start_file(PRE_NAME, opts(false)).ok()?;
-        zw.write_all(&vec![0x55u8; (pre - hdr) as usize]).ok()?;
+        // chunks below 64 KiB: the sparse sink keeps those verbatim
+        let mut left = (pre - hdr) as usize;
+        let chunk = vec![0x55u8; 32768];
+        while left > 0 {
+            let k = left.min(chunk.len());
+            zw.write_all(&chunk[..k]).ok()?;
+            left -= k;
+        }
     }
     Some(zw)
+}
+
+fn read_at(s: &mut Sink, pos: u64, n: usize) -> Option<Vec<u8>> {
+    s.seek(SeekFrom::Start(pos)).ok()?;
+    let mut v = vec![0u8; n];
+    s.read_exact(&mut v).ok()?;
+    Some(v)
 }
 
 struct ReadBack {
@@ -62,34 +121,30 @@ struct ReadBack {
 /// Finish the archive, parse the local header at `header_start` by hand and re-open with the reader.
 fn read_back(zw: &mut W, header_start: u64, large: bool, index: usize) -> Result<ReadBack, String> {
     zw.write_all(CONTENT).map_err(|e| format!("{} at=content", ioerr_class(&e)))?;
-    let cur = zw.finish().map_err(|e| format!("{} at=finish", zerr_class(&e)))?;
-    let bytes = cur.into_inner();
-    let h = header_start as usize;
-    if bytes.len() < h + 30 || bytes[h..h + 4] != [0x50, 0x4b, 0x03, 0x04] {
+    let mut sink = zw.finish().map_err(|e| format!("{} at=finish", zerr_class(&e)))?;
+    let fixed = read_at(&mut sink, header_start, 30).ok_or("bad-local-header")?;
+    if fixed[..4] != [0x50, 0x4b, 0x03, 0x04] {
         return Err("bad-local-header".into());
     }
-    let nlen = u16::from_le_bytes([bytes[h + 26], bytes[h + 27]]) as usize;
-    let xlen = u16::from_le_bytes([bytes[h + 28], bytes[h + 29]]);
-    let xs = h + 30 + nlen;
-    let xe = xs + xlen as usize;
-    if bytes.len() < xe {
-        return Err("bad-local-header".into());
-    }
-    let mut local_extra = bytes[xs..xe].to_vec();
+    let nlen = u16::from_le_bytes([fixed[26], fixed[27]]) as u64;
+    let xlen = u16::from_le_bytes([fixed[28], fixed[29]]);
+    let mut local_extra = read_at(&mut sink, header_start + 30 + nlen, xlen as usize).ok_or("bad-local-header")?;
     if large {
         if local_extra.len() < 20 || local_extra[..4] != [0x01, 0x00, 0x10, 0x00] {
             return Err("bad-zip64-local".into());
         }
         local_extra.drain(..20);
     }
-    let mut ar = ZipArchive::new(Cursor::new(&bytes[..])).map_err(|e| format!("reader {}", zerr_class(&e)))?;
-    let mut f = ar.by_index(index).map_err(|e| format!("reader {}", zerr_class(&e)))?;
-    let ds = f.data_start();
-    let central_extra = f.extra_data().to_vec();
-    let mut got = vec![];
-    let rt = f.read_to_end(&mut got).is_ok() && got == CONTENT;
-    let d = ds as usize;
-    let raw = d + CONTENT.len() <= bytes.len() && &bytes[d..d + CONTENT.len()] == CONTENT;
+    let (ds, central_extra, rt) = {
+        let mut ar = ZipArchive::new(&mut sink).map_err(|e| format!("reader {}", zerr_class(&e)))?;
+        let mut f = ar.by_index(index).map_err(|e| format!("reader {}", zerr_class(&e)))?;
+        let ds = f.data_start();
+        let central_extra = f.extra_data().to_vec();
+        let mut got = vec![];
+        let rt = f.read_to_end(&mut got).is_ok() && got == CONTENT;
+        (ds, central_extra, rt)
+    };
+    let raw = read_at(&mut sink, ds, CONTENT.len()).map(|b| b == CONTENT).unwrap_or(false);
     Ok(ReadBack { ds, xlen, local_extra, central_extra, rt, raw })
 }
 
@@ -103,11 +158,11 @@ fn show_lx(x: &[u8]) -> String {
     hex(x)
 }
 
-fn run_start(pre: u64, name_len: u64, large: bool, a: u64) -> String {
+fn run_start(off: u64, pre: u64, name_len: u64, large: bool, a: u64) -> String {
     if a > 65535 || name_len > 70000 {
         return "bad-op".into();
     }
-    let mut zw = match new_writer(pre) {
+    let mut zw = match new_writer(off, pre) {
         Some(z) => z,
         None => return "bad-op".into(),
     };
@@ -118,7 +173,7 @@ fn run_start(pre: u64, name_len: u64, large: bool, a: u64) -> String {
             Err(e) => return zerr_class(&e),
         };
         let index = if pre > 0 { 1 } else { 0 };
-        match read_back(&mut zw, pre, large, index) {
+        match read_back(&mut zw, off + pre, large, index) {
             Ok(b) => format!(
                 "ok ret={ret} ds={} xlen={} lx={} cx={} rt={} raw={}",
                 b.ds, b.xlen, show_lx(&b.local_extra), hex(&b.central_extra), b.rt as u8, b.raw as u8
@@ -138,7 +193,7 @@ fn class_unit(r: Result<zip::result::ZipResult<()>, String>) -> String {
 }
 
 fn run_validate(large: bool, extra: Vec<u8>) -> String {
-    let mut zw = new_writer(0).unwrap();
+    let mut zw = new_writer(0, 0).unwrap();
     let ex = extra.clone();
     let api = class_unit(catch(AssertUnwindSafe(|| {
         zw.start_file_with_extra_data("v", opts(large))?;
@@ -174,8 +229,11 @@ fn run_validate(large: bool, extra: Vec<u8>) -> String {
     format!("api={api} hook={hook}")
 }
 
-fn run_extra(large: bool, mode: &str, local: Vec<u8>, central: Vec<u8>) -> String {
-    let mut zw = new_writer(0).unwrap();
+fn run_extra(off: u64, large: bool, mode: &str, local: Vec<u8>, central: Vec<u8>) -> String {
+    let mut zw = match new_writer(off, 0) {
+        Some(z) => z,
+        None => return "bad-op".into(),
+    };
     let r = catch(AssertUnwindSafe(|| {
         if let Err(e) = zw.start_file_with_extra_data("x", opts(large)) {
             return format!("{} at=start", zerr_class(&e));
@@ -207,7 +265,7 @@ fn run_extra(large: bool, mode: &str, local: Vec<u8>, central: Vec<u8>) -> Strin
             }
             _ => return "bad-op".into(),
         }
-        match read_back(&mut zw, 0, large, 0) {
+        match read_back(&mut zw, off, large, 0) {
             Ok(b) => format!(
                 "ok ds={} xlen={} lx={} cx={} rt={} raw={}",
                 b.ds, b.xlen, hex(&b.local_extra), hex(&b.central_extra), b.rt as u8, b.raw as u8
@@ -355,6 +413,18 @@ fn wf_extra(x: &[u8]) -> bool {
     true
 }
 
+/// The ZIP64 record a central record must carry for an entry of this stream (its sizes are a few bytes): the
+/// header offset alone, present iff it does not fit below the 32-bit marker value (APPNOTE 4.5.3, 4.4.16).
+fn central_zip64(header_start: u64) -> Vec<u8> {
+    if header_start >= 0xFFFF_FFFF {
+        let mut v = vec![0x01, 0x00, 0x08, 0x00];
+        v.extend(header_start.to_le_bytes());
+        v
+    } else {
+        vec![]
+    }
+}
+
 fn field<'a>(resp: &'a str, key: &str) -> Option<&'a str> {
     resp.split(' ').find_map(|kv| kv.strip_prefix(key).and_then(|r| r.strip_prefix('=')))
 }
@@ -374,7 +444,10 @@ impl Stream for Align {
                   without the 20-byte ZIP64 record); align.validate / align.extra: record lists over unreserved, \
                   reserved, <=31 and 0x0001 IDs, sizes 0..300 (+ single records up to 65531), truncated tails, \
                   incomplete headers, oversize declarations, exact total lengths 65511..65536, modes \
-                  shared/split/centralonly x large_file. distinct = distinct op lines; non-trivial = the call \
+                  shared/split/centralonly x large_file; the same calls over a sparse sink positioned at \
+                  off in {2^32-3 .. 2^32+1, 5 GiB} (header offset at / beyond the ZIP64 marker: the central record \
+                  carries its own ZIP64 record in front of the caller's data), central extra lengths 65508..65535 \
+                  there (K-G boundary 65523/65524). distinct = distinct op lines; non-trivial = the call \
                   sequence succeeded and the archive was read back"
             .into();
         let mut r = super::rng_for(seed, "align", 0);
@@ -460,6 +533,57 @@ impl Stream for Align {
                 g.push("extra.limit", format!("align.extra large={large} mode=split local={} central={}", hex(&small), hex(&x)));
             }
         }
+        // ---- header offsets around 2^32 (sparse sink positioned at `off`): the central record gets a ZIP64 record
+        // of its own exactly from 0xFFFFFFFF on, in front of whatever central extra data the caller supplied
+        const OFFS: [u64; 6] = [0xFFFF_FFFD, 0xFFFF_FFFE, 0xFFFF_FFFF, 0x1_0000_0000, 0x1_0000_0001, 5 << 30];
+        for &off in &OFFS {
+            for large in [0u8, 1] {
+                for a in [0u64, 64, 4096, 65535, r.below(65536)] {
+                    let nl = 1 + r.below(40);
+                    g.push("start.off", format!("align.start off={off} pre=0 name_len={nl} large={large} a={a}"));
+                }
+                let pre = 31 + r.below(3000);
+                let a = 1 << r.below(16);
+                g.push("start.off", format!("align.start off={off} pre={pre} name_len=3 large={large} a={a}"));
+                // pre makes off + pre cross the threshold from below
+                if off < 0xFFFF_FFFF {
+                    g.push("start.off", format!("align.start off={} pre={} name_len=3 large={large} a={a}", off - 40, 40 + r.below(3)));
+                }
+                for mode in ["shared", "split", "centralonly"] {
+                    let (lx, ly) = (4 + r.below(60) as usize, 4 + r.below(60) as usize);
+                    let x = exact_len(&mut r, lx, 2);
+                    let y = exact_len(&mut r, ly, 1);
+                    g.push("extra.off", format!("align.extra off={off} large={large} mode={mode} local={} central={}", hex(&x), hex(&y)));
+                }
+            }
+        }
+        for _ in 0..40 {
+            let off = *r.pick(&OFFS);
+            let (_, x) = gen_extra(&mut r, 300);
+            let (_, y) = gen_extra(&mut r, 300);
+            let mode = *r.pick(&["shared", "split", "centralonly"]);
+            let large = r.below(2);
+            g.push("extra.off", format!("align.extra off={off} large={large} mode={mode} local={} central={}", hex(&x), hex(&y)));
+        }
+        // central extra data that every extra-data call accepts but that does not fit next to the 12-byte ZIP64
+        // record of the central header (K-G): the exact boundary is 65523 / 65524 bytes
+        if tier != "quickx" {
+            let small = record(free_id(&mut r), 3, 3, &mut r);
+            for total in 65508usize..=65535 {
+                let x = exact_len(&mut r, total, 2);
+                g.push("extra.off.limit", format!("align.extra off=4294967296 large=0 mode=centralonly local=- central={}", hex(&x)));
+            }
+            for total in [65515usize, 65516, 65523, 65524, 65535] {
+                let x = exact_len(&mut r, total, 2);
+                for (off, large, mode) in [
+                    (0xFFFF_FFFEu64, 0, "centralonly"), (0xFFFF_FFFF, 0, "centralonly"), (5 << 30, 0, "split"),
+                    (0x1_0000_0000, 0, "shared"), (0x1_0000_0000, 1, "centralonly"), (0x1_0000_0000, 1, "shared"),
+                ] {
+                    let (lo, ce) = if mode == "shared" { (&x, &small) } else { (&small, &x) };
+                    g.push("extra.off.limit", format!("align.extra off={off} large={large} mode={mode} local={} central={}", hex(lo), hex(ce)));
+                }
+            }
+        }
         g
     }
 
@@ -468,7 +592,7 @@ impl Stream for Align {
         let n = |k: &str| get_u64(&a, k);
         match op.as_str() {
             "align.start" => match (n("pre"), n("name_len"), n("large"), n("a")) {
-                (Some(pre), Some(nl), Some(l), Some(al)) if l <= 1 => run_start(pre, nl, l == 1, al),
+                (Some(pre), Some(nl), Some(l), Some(al)) if l <= 1 => run_start(n("off").unwrap_or(0), pre, nl, l == 1, al),
                 _ => "bad-op".into(),
             },
             "align.validate" => match (n("large"), get_hex(&a, "extra")) {
@@ -476,7 +600,7 @@ impl Stream for Align {
                 _ => "bad-op".into(),
             },
             "align.extra" => match (n("large"), a.get("mode"), get_hex(&a, "local"), get_hex(&a, "central")) {
-                (Some(l), Some(m), Some(lo), Some(ce)) if l <= 1 => run_extra(l == 1, m, lo, ce),
+                (Some(l), Some(m), Some(lo), Some(ce)) if l <= 1 => run_extra(n("off").unwrap_or(0), l == 1, m, lo, ce),
                 _ => "bad-op".into(),
             },
             _ => "bad-op".into(),
@@ -499,7 +623,7 @@ impl Stream for Align {
         match op.as_str() {
             "align.start" => {
                 if resp.starts_with("ok") {
-                    let (al, pre, nl, large) = (n("a"), n("pre"), n("name_len"), n("large"));
+                    let (al, pre, nl, large) = (n("a"), n("off") + n("pre"), n("name_len"), n("large"));
                     let (ds, ret, xlen) = (num("ds").unwrap_or(1), num("ret").unwrap_or(0), num("xlen").unwrap_or(0));
                     if al > 1 && ds % al != 0 {
                         bad(format!("entry data is not aligned: data_start {ds} % {al} = {}", ds % al));
@@ -514,8 +638,11 @@ impl Stream for Align {
                     if xlen != 20 * large + ret {
                         bad(format!("local extra-length field {xlen} != {} ", 20 * large + ret));
                     }
-                    if field(resp, "cx") != Some("-") {
-                        bad(format!("padding leaked into the central record: `{resp}`"));
+                    // nothing of the padding reaches the central record: its extra field is the ZIP64 record the
+                    // format requires for this header offset (if any) and nothing else
+                    let want_cx = central_zip64(pre);
+                    if field(resp, "cx") != Some(hex(&want_cx).as_str()) {
+                        bad(format!("padding leaked into the central record (expected extra_data() = `{}`): `{resp}`", hex(&want_cx)));
                     }
                     if al > 1 && ret >= al + 4 {
                         bad(format!("padding {ret} is not minimal for alignment {al}"));
@@ -542,18 +669,34 @@ impl Stream for Align {
                 let local_in = if mode == "centralonly" { vec![] } else { get_hex(&a, "local").unwrap_or_default() };
                 let fits = |x: &[u8]| wf_extra(x) && x.len() as u64 + 20 * large <= 65535;
                 let want = fits(&local_in) && (mode == "shared" || fits(&central_in));
-                if want != resp.starts_with("ok") {
+                let off = n("off");
+                let z64 = central_zip64(off);
+                let central_part = if mode == "shared" { &local_in } else { &central_in };
+                // K-G: every extra-data call accepted the data, but the central record has no room for it
+                // next to the ZIP64 record the header offset requires: `finish()` fails, for good
+                let unfinishable = want && z64.len() + central_part.len() > 65535;
+                if unfinishable && resp == "err invalid at=finish" {
+                    bad(format!(
+                        "K-G central-extra-unfinishable: every extra-data call accepted {} bytes of central extra data for an entry at \
+                         offset {off}, whose central record also needs a {}-byte ZIP64 record: {} > 65535, finish() fails \
+                         (InvalidArchive) and the archive can never be finished",
+                        central_part.len(), z64.len(), z64.len() + central_part.len()
+                    ));
+                } else if want != resp.starts_with("ok") {
                     bad(format!("acceptance differs from APPNOTE 4.5: expected success={want}, got `{}`", &resp[..resp.len().min(60)]));
                 }
                 if resp.starts_with("ok") {
-                    let want_cx = if mode == "shared" { &local_in } else { &central_in };
                     if field(resp, "lx") != Some(hex(&local_in).as_str()) {
                         bad("local header does not carry the local extra data verbatim".into());
                     }
-                    if field(resp, "cx") != Some(hex(want_cx).as_str()) {
-                        bad("central record (reader's extra_data) does not carry the central extra data verbatim".into());
+                    // the reader returns the central record's whole extra field: the ZIP64 record of the format
+                    // (exactly when the header offset needs one), then the caller's central part verbatim
+                    let mut want_cx = z64.clone();
+                    want_cx.extend_from_slice(central_part);
+                    if field(resp, "cx") != Some(hex(&want_cx).as_str()) {
+                        bad("central record (reader's extra_data) is not [ZIP64 record iff needed] ++ the central extra data verbatim".into());
                     }
-                    if num("ds") != Some(30 + 1 + 20 * large + local_in.len() as u64) || num("xlen") != Some(20 * large + local_in.len() as u64) {
+                    if num("ds") != Some(off + 30 + 1 + 20 * large + local_in.len() as u64) || num("xlen") != Some(20 * large + local_in.len() as u64) {
                         bad(format!("data_start / local extra length inconsistent with the local extra data"));
                     }
                     if field(resp, "rt") != Some("1") || field(resp, "raw") != Some("1") {
